@@ -12,7 +12,7 @@ package rewrite
 //@ use @verif/specs/stdlib.spec:stdlib
 //@ use @verif/specs/stdlib.spec:casket_api
 
-//@ unit rewrite_rules props=C19 nilchecks=on filter=`rewrite\.ComplexRule\)\.(Match|matchExt)$|rewrite\.regexpMatches$|rewrite\.NewComplexRule$`
+//@ unit rewrite_rules frames=on props=C19 nilchecks=on filter=`rewrite\.ComplexRule\)\.(Match|matchExt)$|rewrite\.regexpMatches$|rewrite\.NewComplexRule$`
 //@ // The matchers of a `rewrite` block are total in the request path: whatever path Path.Matches accepted for the rule's
 //@ // base (it compares cleaned, case-folded paths, so an accepted path can be SHORTER than the base as written), cutting
 //@ // the base off before the regexp is applied stays in range; extension entries are non-empty by construction.
@@ -37,5 +37,7 @@ package rewrite
 //@ func (ComplexRule).matchExt
 //@   requires forall(k, 0, len(r.Exts), len(r.Exts[k]) >= 1)
 //@ func regexpMatches
+//@   modifies E:string
 //@ func (ComplexRule).Match
+//@   modifies E:string
 //@   requires req != nil && req.URL != nil && r.RequestMatcher != nil && forall(k, 0, len(r.Exts), len(r.Exts[k]) >= 1)
